@@ -169,6 +169,9 @@ func childEntries(st *store.Store, names []string) ([]dagpb.PBLink, map[string]c
 		if len(data) > 40 {
 			data = data[:40]
 		}
+		if i%9 == 4 {
+			data = nil // an empty child: its entry carries Tsize 0
+		}
 		c := st.PutBlock(1, cid.Raw, data)
 		e, err := builder.BuildUnixFSDirectoryEntry(n, int64(len(data)), cidlink.Link{Cid: c})
 		if err != nil {
